@@ -107,7 +107,7 @@ def configs(tier):
     out = []
     for n in b["bd_tips"]:
         for rates in ((1.0, 0.0), (1.0, 0.5)):
-            for ns in ("none", "exact", "larger"):
+            for ns in ("none", "exact", "larger", "short_T", "short_other"):
                 out.append(("birth_death_tree", n, rates, ns))
                 out.append(("fast_birth_death_tree", n, rates, ns))
         out.append(("uniform_pure_birth_tree", n, (1.0, 0.0), "exact"))
@@ -143,6 +143,12 @@ def species_tree(n, si):
 def make_ns(kind, n):
     if kind == "none":
         return None
+    if kind == "short_T":
+        # fewer taxa than tips, labelled like the simulator's own generated labels (T1, T2, ...):
+        # the missing taxa must be created without re-using a label that is already there
+        return dendropy.TaxonNamespace(["T%d" % i for i in range(1, max(2, n))])
+    if kind == "short_other":
+        return dendropy.TaxonNamespace(["t0"])
     k = n if kind == "exact" else n + 1
     return dendropy.TaxonNamespace(["t%d" % i for i in range(k)])
 
